@@ -3,6 +3,7 @@ package checks
 import (
 	"encoding/json"
 	"fmt"
+	"os"
 	"path/filepath"
 	"regexp"
 	"strings"
@@ -57,6 +58,13 @@ func init() {
 			return c08Parse(c, cs, "json", mustJSON(cs))
 		})
 	}
+	harness.RegisterReplayer("C08/reload", func(raw json.RawMessage) string {
+		rc, err := unJSON[reloadCase](raw)
+		if err != nil {
+			return "bad case: " + err.Error()
+		}
+		return c08Reload(harness.New(nopTB{}, "C08", "replay", ""), rc)
+	})
 	harness.RegisterReplayer("C08/large-files", func(raw json.RawMessage) string {
 		lc, err := unJSON[largeCase](raw)
 		if err != nil {
@@ -755,4 +763,95 @@ func TestC08_LargeFiles(t *testing.T) {
 		}
 	}
 	c.ExhaustivePart("3 sizes x 7 endings x 5 ways of loading")
+}
+
+// reloadCase: a path is loaded, its file is replaced by other content of the same
+// length with the same modification time, and it is loaded again: the second
+// load sees the second content.
+type reloadCase struct {
+	First  string `json:"first"`
+	Second string `json:"second"`
+	Via    string `json:"via"`    // newtemplate | evalfile | mixed
+	Reject bool   `json:"reject"` // the second content is defective
+}
+
+func c08Reload(c *harness.Check, rc reloadCase) string {
+	root, err := tree.Materialise(tree.Tree{"t/page.tw": tree.Entry{Content: rc.First}})
+	if err != nil {
+		return ""
+	}
+	path := filepath.Join(root, "t", "page.tw")
+	var failure string
+	load := func(second bool) (string, error) {
+		if rc.Via == "evalfile" || rc.Via == "mixed" && second {
+			return textwire.EvaluateFile(path, nil)
+		}
+		tpl, lerr := textwire.NewTemplate(&config.Config{TemplateDir: "t", TemplateExt: ".tw"})
+		if lerr != nil {
+			return "", lerr
+		}
+		out, ferr := tpl.String("page", nil)
+		if ferr != nil {
+			return out, ferr.Error()
+		}
+		return out, nil
+	}
+	pi := c.Guard("json", mustJSON(rc), func() {
+		textwire.VerifReset()
+		if _, err := load(false); err != nil {
+			failure = "harness: the first content does not load: " + err.Error()
+			return
+		}
+		st, err := os.Stat(path)
+		if err != nil {
+			return
+		}
+		if err := os.WriteFile(path, []byte(rc.Second), 0o644); err != nil {
+			return
+		}
+		os.Chtimes(path, st.ModTime(), st.ModTime())
+		out, lerr := load(true)
+		wantOut, werr := textwire.EvaluateString(rc.Second, nil)
+		switch {
+		case rc.Reject && lerr == nil:
+			failure = fmt.Sprintf("the file now holds %q but loading it again succeeds with %q", rc.Second, out)
+		case !rc.Reject && (lerr != nil) != (werr != nil):
+			failure = fmt.Sprintf("loading again gives error %v, evaluating the new content as a string gives %v", lerr, werr)
+		case !rc.Reject && lerr == nil && out != wantOut:
+			failure = fmt.Sprintf("loading again renders %q, the file holds %q which renders %q", out, rc.Second, wantOut)
+		}
+	})
+	if pi != nil {
+		return "panic: " + pi.Value
+	}
+	if strings.HasPrefix(failure, "harness:") {
+		return ""
+	}
+	return failure
+}
+
+func TestC08_Reload(t *testing.T) {
+	c := harness.New(t, "C08", "reload",
+		"a template file is loaded (NewTemplate + String, or EvaluateFile), then replaced by other content of exactly the same length with its modification time restored, and loaded again through the same or the other entry point: defective second contents (unterminated {{, @if, string, comment; illegal character) must be rejected, valid ones must render like the new content evaluated as a string. Exhaustive over 7 second contents x 3 ways. Non-trivial: all. Distinct by construction.")
+	defer c.Finish()
+	first := "<p>{{ 1 + 2 }}</p>xx"
+	seconds := []struct {
+		src    string
+		reject bool
+	}{{"<p>{{ 1 + 2  </p>xxx", true}, {"<p>@if(true)</p>xxxx", true}, {"<p>{{ 1 # 2 }}</p>xx", true}, {"<p>{{ \"1 + 2 }}</p>x", true}, {"<p>{{-- 1 2 }}</p>xx", true},
+		{"<b>{{ 4 * 5 }}</b>yy", false}, {"plain text, no code!", false}}
+	for _, s := range seconds {
+		if len(s.src) != len(first) {
+			t.Fatalf("harness: %q has %d bytes, the first content %d", s.src, len(s.src), len(first))
+		}
+		for _, via := range []string{"newtemplate", "evalfile", "mixed"} {
+			rc := reloadCase{First: first, Second: s.src, Via: via, Reject: s.reject}
+			c.CaseEnum(true, "via:"+via, fmt.Sprintf("reject:%v", s.reject))
+			c.Sample(rc)
+			if f := c08Reload(c, rc); f != "" {
+				c.Fail(t, kindOf(f), rc, "the second content decides", f, f)
+			}
+		}
+	}
+	c.ExhaustivePart("7 second contents x 3 ways of loading")
 }
